@@ -355,9 +355,6 @@ def _resolve_files(options: Options) -> list[str]:
     If inputs include directories or globs, use FileResolver to expand them.
     Otherwise, pass through unchanged for backward compatibility.
     """
-    if not _needs_file_resolution(options.files) and not options.list_files:
-        return options.files
-
     from flowmark.file_resolver import FileResolver, FileResolverConfig
 
     # Filter out stdin marker before passing to resolver
@@ -374,6 +371,14 @@ def _resolve_files(options: Options) -> list[str]:
         files_max_size=options.files_max_size,
     )
     resolver = FileResolver(config)
+    if not _needs_file_resolution(options.files) and not options.list_files:
+        # Only explicitly named files: keep them as written and in the given order, but the
+        # size limit and `--force-exclude` apply to them like in every other case.
+        return [
+            f
+            for f in options.files
+            if f == "-" or not Path(f).is_file() or resolver.includes_explicit_file(Path(f))
+        ]
     resolved = resolver.resolve(resolvable)
     result = [str(p) for p in resolved]
     if stdin_present:
